@@ -33,7 +33,7 @@ def run(ctx):
                traces_validated_against_impl=len(lines), evaluations=len(lines), distinct_nontrivial=len(keys),
                rule="CERs = every state of spec/CapabGen.tla (27 presence combinations of Origin-Host / Origin-Realm / Inband-Security-Id x item lists; with all three acceptable, every ordered list of up to MaxItems items over "
                     "Acct / Auth / VSA[Vendor-Id first|last|absent; inner Acct|Auth|both|none] x {supported-auth, supported-acct, unsupported, wrong-type, relay}) + seeded random larger lists (<= 12 items) under five settings "
-                    "(derived IPv4 / IPv6 / loopback endpoint, configured host addresses); each sent by a scripted peer to a real server state machine; non-trivial = at least one application item; distinct by (presence, ordered items, settings) Since extended: the same CER when no CEA can reach the peer (no address to put into it / the transport refuses the write) and on a second connection, with another local address, of a state machine that has already accepted a CER; the further dictionaries are loaded after a first state machine was created.",
+                    "(derived IPv4 / IPv6 / loopback endpoint, configured host addresses); each sent by a scripted peer to a real server state machine; non-trivial = at least one application item; distinct by (presence, ordered items, settings) Since extended: the same CER when no CEA can reach the peer (no address to put into it / the transport refuses the write) and on a second connection, with another local address, of a state machine that has already accepted a CER; the further dictionaries are loaded after a first state machine was created; the CER on a connection accepted from a TLS listener; application AVPs without the M bit.",
                samples=[dict(cer=l["cer"], rc=l["obs"]["cea"]["rc"], closed=l["obs"]["closed"], meta=l["obs"]["meta"]) for l in lines[100:len(lines):max(1, len(lines) // 3)]][:3],
                exhaustive=False, rejected_lines=len(bad), known_finding_hits={k: n for k, (n, _) in v.hits.items()})
     rc = v.finish()
